@@ -310,6 +310,27 @@ def job_bwr2(ss, L):
     ss.prove("BWR_normal.value[L=%d]" % L, F, far_c(rn, ref, 0), key="BWR_normal.value", payload=pay, timeout=60,
              describe="BWR_normal(m) = sqrt(m0 Gamma(m)) / (m0^2 - m^2 - i m0 Gamma(m))")
     _definedness(ss, "BWR2[L=%d]" % L, "BWR2", pay)
+    # below threshold (q^2 < 0 < q0^2): the documented formula analytically continued,
+    # (q/q0)^(2L+1) = (q^2/q0^2)^L * i sqrt(-q^2/q0^2), i.e. an imaginary running width
+    S.new_context()
+    m, m0, g0, s_, q02, d = _pos("m"), _pos("m0"), _pos("g0"), _pos("s"), _pos("q02"), _pos("d")
+    q2 = -s_
+    z, z0 = q2 * d * d, q02 * d * d
+    S.assume(P_ref(L, z) != 0)
+    ratio = q2 / q02
+    rL = SymReal(T.ONE)
+    for _ in range(L):
+        rL = rL * ratio
+    gam_im = g0 * (m0 / m) * (P_ref(L, z0) / P_ref(L, z)) * rL * (s_ / q02).sqrt()  # Gamma = i * gam_im
+    D = m0 * m0 - m * m + m0 * gam_im  # x - i m0 (i gam_im)
+    S.assume(D != 0)
+    payb = _model_payload("bwr2_below", ["m", "m0", "g0", "s", "q02", "d"], L=L)
+    rb = _e(bw.BWR2(_t1(m), m0, g0, _t1(q2), _t1(q02), L, d))
+    F = facts()
+    rb = simp(F, rb)
+    ss.prove("BWR2.below_threshold[L=%d]" % L, F, far_c(rb * SymComplex(D, SymReal(T.ZERO)), 1.0, 0), key="BWR2.below_threshold", payload=payb, timeout=60,
+             describe="below threshold BWR2 = 1/(m0^2 - m^2 - i m0 Gamma) with Gamma = Gamma0 (q^2/q0^2)^L i sqrt(-q^2/q0^2) (m0/m) B_L^2 (analytic continuation)")
+    ss.witness("BWR2.below.reach[L=%d]" % L, F)
 
 
 def job_dom(ss, L):
